@@ -13,6 +13,8 @@ import (
 	"math/rand"
 	"os"
 	"strconv"
+	"sync/atomic"
+	"time"
 
 	"github.com/fogfish/golem/pure/monoid"
 	"github.com/fogfish/golem/seq"
@@ -232,6 +234,60 @@ func emit(kind string, script []Op) {
 	w.WriteByte('\n')
 }
 
+// ---- volume: one long New(...), then Fold under the affine monoid and Length, on both traits ----
+// The operation takes its time on the FIRST element only (a fold that works on several parts of the sequence at once
+// finishes the later parts first) and counts its calls with an atomic (it may be called from several goroutines by a
+// library that does so).
+
+const vp = 65521
+
+var (
+	vcalls atomic.Int64
+	vlimit int64
+	vfirst int64 = 3 * vp
+)
+
+func aff(u, v int64) int64 {
+	if vcalls.Add(1) > vlimit {
+		panic("runaway fold")
+	}
+	if v == vfirst {
+		time.Sleep(2 * time.Millisecond)
+	}
+	return ((u/vp)*(v/vp)%vp)*vp + ((u%vp)*(v/vp)+v%vp)%vp
+}
+
+func vlist(n int, a0 int64) []int64 {
+	xs := []int64{vfirst}
+	for i := int64(0); i < int64(n); i++ {
+		k := a0 + i
+		xs = append(xs, (2+k%5)*vp+(1+k%7))
+	}
+	return xs
+}
+
+func volumeOn[F any](t seq.Seq[F, int64], xs []int64) (fold, length int64) {
+	fold, length = -1, -1 // a panic is reported as -1 (no fold under this monoid is negative)
+	vcalls.Store(0)
+	vlimit = int64(4*len(xs) + 64)
+	try(func() {
+		s := t.New(append([]int64(nil), xs...)...)
+		fd := seq.Foldable[F, int64]{Seq: t}
+		fold = fd.Fold(monoid.FromOp[int64](vp, aff), s)
+		length = int64(t.Length(s))
+	})
+	return
+}
+
+func emitVolume(n int, a0 int64) {
+	xs := vlist(n, a0)
+	fl, ll := volumeOn[list.Seq[int64]](list.Trait[int64]("seq.int64"), xs)
+	fs, ls := volumeOn[slice.Seq[int64]](slice.Trait[int64]("seq.int64"), xs)
+	b, _ := json.Marshal(map[string]any{"kind": "volume", "vol": []int64{int64(n), a0, fl, fs, ll, ls}, "script": []Op{}, "list": []Step{}, "slice": []Step{}})
+	w.Write(b)
+	w.WriteByte('\n')
+}
+
 // ---- script generation: the generator tracks only the LENGTHS the ADT prescribes (to stay
 // within maxLen and to know which slots exist); it never looks at what the code answered ----
 
@@ -377,6 +433,13 @@ func main() {
 		sc.Buffer(make([]byte, 1<<20), 1<<26)
 		for sc.Scan() {
 			var script []Op
+			var vol struct {
+				Vol []int64 `json:"vol"`
+			}
+			if json.Unmarshal(sc.Bytes(), &vol) == nil && len(vol.Vol) >= 2 {
+				emitVolume(int(vol.Vol[0]), vol.Vol[1])
+				continue
+			}
 			if err := json.Unmarshal(sc.Bytes(), &script); err != nil {
 				fmt.Fprintln(os.Stderr, err)
 				os.Exit(2)
@@ -396,6 +459,17 @@ func main() {
 		rng := rand.New(rand.NewSource(seed))
 		for k := 0; k < nrand; k++ {
 			emit("random", random(rng, 20+rng.Intn(41)))
+		}
+	}
+	if os.Getenv("VERIF_REPLAY") == "" {
+		// long sequences (New takes any number of elements, Fold any length): around the powers of two and beyond
+		vr := rand.New(rand.NewSource(seed + 77))
+		sizes := []int{200, 255, 256, 1022, 1023, 1024, 2047, 2500, 4095, 4200}
+		if thorough {
+			sizes = append(sizes, 511, 512, 8191, 8192, 10000, 20000)
+		}
+		for _, n := range sizes {
+			emitVolume(n, int64(vr.Intn(35)))
 		}
 	}
 	if overflow {
